@@ -24,7 +24,16 @@ def _inner(c):
     return c, False
 
 
+def _conc(c):
+    """c12.conc <workers> <iters> <k> <inner> ;; …  ->  (first inner case tokens, workers, iters, k)"""
+    rest = c[4:]
+    first = rest[:rest.index(";;")] if ";;" in rest else rest
+    return first, c[1], c[2], c[3]
+
+
 def c12_nontrivial(c, i):
+    if c and c[0] == "c12.conc":
+        return bool(i) and "unstable" not in i and not any(t.startswith("panic") for t in i)
     c, _ = _inner(c)
     # the decoder got past its first error exit: it produced a row / a cut / an event
     k = _kind(c, i)
@@ -34,6 +43,15 @@ def c12_nontrivial(c, i):
 
 
 def c12_classify(c, i):
+    if c and c[0] == "c12.conc":
+        first, workers, iters, k = _conc(c)
+        d = DECODERS.get(first[0], first[0])
+        out = ["family=concurrent-shared-decoder", "conc:dec=" + d, "conc:workers=" + workers, "conc:iters=" + iters,
+               "conc:docs=" + k, "conc:calls=" + str(int(workers) * int(iters) * max(1, int(k) // int(workers)))]
+        if first[0] == "c12.jcut":
+            out.append("conc:jcut:paths=" + first[2])
+        out.append("conc:" + ("unstable" if "unstable" in i else "panic" if any(t.startswith("panic") for t in i) else "stable"))
+        return out
     c, is_row = _inner(c)
     d = DECODERS.get(c[0], c[0])
     out = ["dec=" + d, d + ":" + _kind(c, i)]
@@ -94,6 +112,10 @@ CFG = {
         "Go `int` arithmetic of atoi is modelled in unbounded Int (the value is used for at most 4 digits)",
     ],
     "assumptions": [
+        "decoding is a function of (document, parameters): a call's result does not depend on other calls, concurrent or not, on the same "
+        "decoder instance. Not a theorem (the models are pure functions, Go's shared state is outside them): checked by the c12.conc family, "
+        "one shared decoder (json with 0/1/>=2 json_max_fields_size paths, csv with its sync.Pool, nginx, syslog) under 4-8 goroutines, "
+        "every call's result compared with the model's sequential answer",
         "json_max_fields_size limits are >= 0 and paths are plain key paths (gjson modifiers / wildcards are configuration, not input)",
         "csv invalid_line_mode=fatal is not exercised (it calls logger.Fatalf by design)",
         "RAW: Pipeline.In refuses empty input before slicing (checkInputBytes), so bytes[:len-1] is in range",
